@@ -107,6 +107,26 @@ pub fn shuffle_indices(t: &mut Tape, cx: &mut Cx) -> CaseResult {
     sample!(cx, "lo={:?} hi={:?} indices={:?}", lo, hi, idx);
     shuffle_vec4(cx, lo, hi, idx)?;
     shuffle_rgba(cx, lo, hi, idx)?;
+    // single-index masks written as UNTYPED integer literals, the way user code writes them (`v.shuffled(5)`):
+    // whatever integer type inference picks for the literal, index k selects lane k % 4
+    {
+        let v = Vec4::<Cs>::mk(lo);
+        let w = Vec4::<Cs>::mk(hi);
+        let b = |k: usize| [lo[k % 4]; 4];
+        check_eq!(cx, v.shuffled(0).rd(), b(0), "Vec4.shuffled(0) (literal)");
+        check_eq!(cx, v.shuffled(3).rd(), b(3), "Vec4.shuffled(3) (literal)");
+        check_eq!(cx, v.shuffled(4).rd(), b(4), "Vec4.shuffled(4) (literal)");
+        check_eq!(cx, v.shuffled(5).rd(), b(5), "Vec4.shuffled(5) (literal)");
+        check_eq!(cx, v.shuffled(6).rd(), b(6), "Vec4.shuffled(6) (literal)");
+        check_eq!(cx, v.shuffled(7).rd(), b(7), "Vec4.shuffled(7) (literal)");
+        check_eq!(cx, v.shuffled(255).rd(), b(255), "Vec4.shuffled(255) (literal)");
+        check_eq!(cx, v.shuffled(1000).rd(), b(1000), "Vec4.shuffled(1000) (literal)");
+        check_eq!(cx, Vec4::shuffle_lo_hi(v, w, 6).rd(), [lo[2], lo[2], hi[2], hi[2]], "Vec4::shuffle_lo_hi(lo, hi, 6) (literal)");
+        check_eq!(cx, ShuffleMask4::from(4).to_indices(), (0, 0, 0, 0), "ShuffleMask4::from(4) (literal)");
+        check_eq!(cx, ShuffleMask4::from(9).to_indices(), (1, 1, 1, 1), "ShuffleMask4::from(9) (literal)");
+        let c = Rgba::<Cs>::mk(lo);
+        check_eq!(cx, c.shuffled(5).rd(), b(5), "Rgba.shuffled(5) (literal)");
+    }
     Ok(())
 }
 
